@@ -797,8 +797,19 @@ impl RuleCatalog {
         let content = serde_json::to_string_pretty(&catalog_file)
             .map_err(|e| format!("Failed to serialize catalog: {e}"))?;
 
-        fs::write(&self.catalog_path, content)
-            .map_err(|e| format!("Failed to write catalog: {e}"))?;
+        // Atomic replace: write temp, sync, rename, sync directory
+        let tmp_path = self.catalog_path.with_extension("json.tmp");
+        fs::write(&tmp_path, content).map_err(|e| format!("Failed to write catalog: {e}"))?;
+        fs::File::open(&tmp_path)
+            .and_then(|f| f.sync_all())
+            .map_err(|e| format!("Failed to sync catalog: {e}"))?;
+        fs::rename(&tmp_path, &self.catalog_path)
+            .map_err(|e| format!("Failed to replace catalog: {e}"))?;
+        if let Some(parent) = self.catalog_path.parent() {
+            if let Ok(d) = fs::File::open(parent) {
+                let _ = d.sync_all();
+            }
+        }
 
         self.dirty = false;
         Ok(())
